@@ -15,7 +15,7 @@ func init() { Registry["C14"] = c14 }
 const msNanos = 1000000
 
 func c14(p *core.Prog, r *core.Report) {
-	r.Explain = "Decides: (R1) the time-to-live sent with a call is deadline - now of the caller's context, calls with less than a millisecond left return the timeout error locally, and the wire value is ttl / Millisecond on write and x Millisecond on read (same constant); (R2) the handler's context is built with the decoded time-to-live as its timeout on top of the connection's base context, and the context builder always installs a deadline (WithCancel only when the parent already has one); (R3) a relay rewrites the ttl only to its configured maximum and only when the received value exceeds it, arms its timer with the clamped value, writes milliseconds into the ttl field, and the configured maximum is validated to fit the wire field; (R4) cancellation wiring: completing the response cancels the handler context, the inbound watcher cancels it on connection errors, a received cancel frame reaches the exchange only with PropagateCancel, a cancel frame is sent only for context.Canceled and only with SendCancelOnContextCanceled, and relays drop cancel frames unless propagation is enabled. Every context-error return of the caller's response wait passes onCtxErr. A failed frame write reaches connectionError, so handler contexts are cancelled; (R5) every blocking wait on the call path has a context arm (shared with C05). Retry closures hand the attempt's own context (not the captured overall one) to every call; connectionError and protocolError stop both exchange sets and every exchange is notified (shared with C05). A non-zero builder Timeout always bounds the built context (path rule under the hypothesis Timeout != 0). Assuming SendCancelOnContextCanceled no return of onCancel avoids sending the cancel; the relay's ttl rewrite stores the truncated millisecond count of its parameter."
+	r.Explain = "Decides: (R1) the time-to-live sent with a call is deadline - now of the caller's context, calls with less than a millisecond left return the timeout error locally, and the wire value is ttl / Millisecond on write and x Millisecond on read (same constant); (R2) the handler's context is built with the decoded time-to-live as its timeout on top of the connection's base context, and the context builder always installs a deadline (WithCancel only when the parent already has one); (R3) a relay rewrites the ttl only to its configured maximum and only when the received value exceeds it, arms its timer with the clamped value, writes milliseconds into the ttl field, and the configured maximum is validated to fit the wire field; (R4) cancellation wiring: completing the response cancels the handler context, the inbound watcher cancels it on connection errors, a received cancel frame reaches the exchange only with PropagateCancel, a cancel frame is sent only for context.Canceled and only with SendCancelOnContextCanceled, and relays drop cancel frames unless propagation is enabled. Every context-error return of the caller's response wait passes onCtxErr. A failed frame write reaches connectionError, so handler contexts are cancelled; (R5) every blocking wait on the call path has a context arm (shared with C05). Retry closures hand the attempt's own context (not the captured overall one) to every call; connectionError and protocolError stop both exchange sets and every exchange is notified (shared with C05). A non-zero builder Timeout always bounds the built context (path rule under the hypothesis Timeout != 0). Assuming SendCancelOnContextCanceled no return of onCancel avoids sending the cancel; the relay's ttl rewrite stores the truncated millisecond count of its parameter. The call req's ttl is the truncated millisecond count of TimeToLive; the per-call watcher cancels the handler's context on every path of its error-latch arm."
 	r.NotDecided = "actual expiry times; races between cancellation and completion; timer accuracy."
 	r.Rule("C14-R1", "E6 provenance", 5, "ttl sent is the caller's remaining time, ms conversion symmetric")
 	r.Rule("C14-R2", "E6 provenance", 4, "handler context bounded by the received ttl")
